@@ -26,6 +26,7 @@ import (
 	"github.com/sourcenetwork/defradb/internal/core"
 	"github.com/sourcenetwork/defradb/internal/datastore"
 	"github.com/sourcenetwork/defradb/internal/encryption"
+	"github.com/sourcenetwork/defradb/internal/keys"
 )
 
 func putBlock(
@@ -143,6 +144,34 @@ func determineBlockEncryption(
 	}
 
 	// otherwise we use the same encryption as the previous block
+	encBlock, link, err := inheritBlockEncryption(ctx, heads, false)
+	if err != nil || encBlock != nil {
+		return encBlock, link, err
+	}
+
+	// a field without an encrypted previous block of its own, e.g. one that is set for the first time
+	// by an update, is covered by the encryption of the whole document, if there is one
+	if fieldName.HasValue() && docID != "" {
+		docHeadsKey := keys.HeadstoreDocKey{DocID: docID, FieldID: core.COMPOSITE_NAMESPACE}
+		docHeads, _, err := NewHeadSet(txn.Headstore(), docHeadsKey).List(ctx)
+		if err != nil {
+			return nil, cidlink.Link{}, err
+		}
+		return inheritBlockEncryption(ctx, docHeads, true)
+	}
+
+	return nil, cidlink.Link{}, nil
+}
+
+// inheritBlockEncryption returns the encryption of the first of the given blocks that is encrypted.
+// If docLevelOnly is true, only encryption of a whole document is taken into account.
+func inheritBlockEncryption(
+	ctx context.Context,
+	heads []cid.Cid,
+	docLevelOnly bool,
+) (*Encryption, cidlink.Link, error) {
+	txn := datastore.CtxMustGetTxn(ctx)
+
 	for _, headCid := range heads {
 		prevBlockBytes, err := txn.Blockstore().AsIPLDStorage().Get(ctx, headCid.KeyString())
 		if err != nil {
@@ -160,6 +189,9 @@ func determineBlockEncryption(
 			prevEncBlock, err := GetEncryptionBlockFromBytes(prevBlockEncBytes)
 			if err != nil {
 				return nil, cidlink.Link{}, err
+			}
+			if docLevelOnly && prevEncBlock.FieldName != nil {
+				continue
 			}
 			return &Encryption{
 				DocID:     prevEncBlock.DocID,
